@@ -227,52 +227,13 @@ class Ob:
             return {"MOD": self.ctx.const(ty, "MOD")[0]}
         return {"MOD": self.ctx.const(ty, "MOD")[0], "NORMALIZE_INTERVAL": self.ctx.const(ty, "NORMALIZE_INTERVAL")[0]}
 
-    def prove(self, ex, goals, oid_prefix, bound, functions, witness_fn=None, panics_key="panic-free"):
-        """goals: {name: formula that must hold}.  Also discharges ex.obligs (panic edges).
-        Returns list of (name, status)."""
-        out = []
-        items = [(k, z3.Not(f)) for k, f in goals.items()]
-        pan = [o for o in ex.obligs]
-        if pan:
-            items.append((panics_key, z3.Or(*[o.formula for o in pan])))
-        for name, neg in items:
-            oid = "%s/%s" % (oid_prefix, name)
-            t0 = now()
-            q0 = env.STATS.queries
-            try:
-                st, model, solver = decide(ex.assumes, neg, self.cap)
-            except z3.Z3Exception as e:
-                self.R.add(oid, "inconclusive", detail="z3 exception %s" % e)
-                continue
-            info = dict(bound=bound, functions=functions, models=sorted(ex.used_models),
-                        summaries=sorted(ex.used_summaries))
-            if st == "unsat":
-                cross = None
-                try:
-                    cross = cross_check(solver, "unsat", 10 if self.tier == "quick" else 60,
-                                        first_only=(self.tier == "quick"))
-                except Inconclusive as e:
-                    self.R.add(oid, "inconclusive", detail=str(e), **info)
-                    continue
-                self.R.add(oid, "holds", solver_s=now() - t0, queries=env.STATS.queries - q0, cross=cross, **info)
-                out.append((name, "holds"))
-            elif st == "sat":
-                detail = "abstract model found"
-                if name == panics_key:
-                    hit = [o for o in pan if z3.is_true(model.eval(o.formula, model_completion=True))]
-                    detail = "reachable panic edge: " + "; ".join("%s %s" % (o.where, o.msg[:70]) for o in hit[:3])
-                res = {"confirmed": False}
-                if witness_fn is not None:
-                    res = witness_fn(name, neg if name != panics_key else z3.Or(*[o.formula for o in pan]), model)
-                self.R.add(oid, "violated", solver_s=now() - t0, queries=env.STATS.queries - q0,
-                           detail=detail + " | " + res.get("detail", ""), confirmed=res.get("confirmed", False),
-                           replay_path=res.get("replay_path"), key=oid, **info)
-                out.append((name, "violated"))
-            else:
-                self.R.add(oid, "inconclusive", detail="solver: %s" % model, solver_s=now() - t0,
-                           queries=env.STATS.queries - q0, **info)
-                out.append((name, "inconclusive"))
-        return out
+    def prove(self, ex, goals, oid_prefix, bound, functions, witness_fn=None):
+        from mirsmt.prove import Prover
+        w = None
+        if witness_fn is not None:
+            def w(name, model, neg):
+                return witness_fn(name, neg, model)
+        return Prover(self.R, self.tier).prove(ex, goals, oid_prefix, bound, functions, w)
 
 
 # ------------------------------------------------------------------ native confirmation
